@@ -998,6 +998,13 @@ func checkC09(P *Prog, r *Result) {
 	P.checkReflectMapIteration(r, "C09/reflect-map-iteration")
 	r.Instances["C09/map-range-loops"] = nLoops
 	r.floor("C09/map-range-loops", 3)
+	// order independence also needs every child context clean at every dispatch — wherever the loop body
+	// lives (a closure handed to an iteration helper) — and no field of a recycled per-node object carried
+	// from the node visited before: C01's child-clean rule and C07's reinit rule (node contexts and issues)
+	shareRule(P, r, checkC01, "C01/child-clean", nil, "C09/child-clean-any-order", 15)
+	shareRule(P, r, checkC07, "C07/reinit", func(o Obligation) bool {
+		return strings.Contains(o.Construct, "#zog/internals.SchemaCtx.") || strings.Contains(o.Construct, "#zog/internals.ZogIssue.")
+	}, "C09/no-carried-pooled-state", 10)
 	_ = R
 }
 
@@ -1185,6 +1192,18 @@ func storeCoversIteration(l rangeLoop, b *ssa.BasicBlock, idx int, bv ssa.Value,
 					// calls that merely push/pop the path do not read ctx fields other than Path
 					if ci.static != nil && (ci.static.Name() == "Push" || ci.static.Name() == "Pop") {
 						continue
+					}
+					// a module helper (`subCtx.Enter(&key)`) uses the field only if it can read it
+					if ci.static != nil && ci.static.Blocks != nil && inModule(funcPkgPath(ci.static)) {
+						ai := -1
+						for k, a2 := range ci.args() {
+							if cvi(a2) == bv {
+								ai = k
+							}
+						}
+						if ai >= 0 && !calleeMayReadField(ci.static, ai, f, 0) {
+							continue
+						}
 					}
 					return true
 				}
@@ -1403,4 +1422,43 @@ func (P *Prog) checkReflectMapIteration(r *Result, rule string) {
 	if n == 0 {
 		r.ok(rule, "execution code", "-", "no reflective map iteration in execution-reachable code")
 	}
+}
+
+// calleeMayReadField: fn can read field f of its parameter idx: a load of it, the parameter handed to a dynamic
+// or interface call (which may read anything), or to a module callee that can.
+func calleeMayReadField(fn *ssa.Function, idx int, f *types.Var, depth int) bool {
+	if fn == nil || fn.Blocks == nil || idx >= len(fn.Params) || depth > 3 {
+		return true
+	}
+	prm := ssa.Value(fn.Params[idx])
+	reads := false
+	eachInstr(fn, func(_ *ssa.BasicBlock, _ int, in ssa.Instruction) {
+		if reads {
+			return
+		}
+		if u, ok := in.(*ssa.UnOp); ok && u.Op == token.MUL {
+			if b, ff := fieldVar(u.X); ff != nil && sameField(ff, f) && cvi(b) == prm {
+				reads = true
+			}
+			return
+		}
+		ci := callOf(in)
+		if ci == nil {
+			return
+		}
+		for k, a := range ci.args() {
+			if cvi(a) != prm {
+				continue
+			}
+			switch {
+			case ci.static != nil && ci.static.Blocks != nil && inModule(funcPkgPath(ci.static)):
+				if calleeMayReadField(ci.static, k, f, depth+1) {
+					reads = true
+				}
+			default:
+				reads = true
+			}
+		}
+	})
+	return reads
 }
